@@ -1,25 +1,164 @@
 (* C01 - Compiled evaluation equals lexically-scoped reference semantics.
+   This file contains only the property theorems (each closed by an exact lemma application or by
+   computation on a regenerated table), non-vacuity examples and Print Assumptions.
 
-   What is stated here NOW (the simulation theorem exec_sim - Gen.exec refines Ref.eval for ALL
-   programs, argument tuples and fuel - is proved separately in Sem/GenProofs.v and will be added
-   to this file; until then the equality of compiled and reference evaluation on arbitrary
-   programs is established by the three-way correspondence run, not by a theorem):
+   Model side:      Sem/Gen.v   exec / run  (slot indices, shared stack, reserved slots, closure contexts)
+   Specification:   Sem/Ref.v   eval        (environments, nearest binding, call-by-value, left to right)
+   Side conditions: Sem/Sim.v   wf (every used name resolves; no let redeclares a name of its frame;
+                    OuterIdents resolve, exclude the closure's own name and cover the body; constants
+                    are first-order or context-free closures), frame_ok (slot i of the frame holds the
+                    value of the name compiled to index i, context entry j the value of captured name j),
+                    vrel / orel (closures: same parameters and body, every name the body can use
+                    resolves to related values, the reference may capture more).
 
-     C01_tables_ok                     the arity tables the models use for built-in functions and
-                                       methods agree with the tables regenerated from value.New()
-     C01_pinned_discipline_refuted     the call-site discipline of the pinned commit (arguments
-                                       compiled without reserved slots) is NOT lexically scoped:
-                                       computed witness, 505 instead of 506
-     C01_repaired_discipline_on_witness  ... and the repaired discipline modelled in Sem/Gen.v is,
-                                       on that witness
-     Examples (non-vacuity)            concrete programs with a recursive func, three closure levels
-                                       capturing an argument, a let inside the 2nd argument of a
-                                       call and a map-field closure evaluate to the same value
-                                       under Ref.eval (on the unannotated tree) and Gen.run (on the
-                                       parser's AST).
-   Each theorem is closed by an exact lemma application or by computation on a regenerated table. *)
-From P2 Require Import Base.Prelude Sem.Num Sem.Syntax Sem.Ops Sem.Lib Sem.Ref Sem.Gen Sem.GenBuggy
-                       Sem.GenBuggyProofs Sem.Examples Generated.ValueCfg Run.C01Run.
+   Part 1 (simulation, all programs / fuel / frames): exec_sim, C01_from_ast, C01_generated, ...,
+           call_frame_independent, exec_sim_pinned_refuted.
+   Part 2 (tie to the code): C01_tables_ok - the arity tables the models use agree with the tables
+           regenerated from value.New(); C01_pinned_discipline_refuted - the pinned call-site
+           discipline on the program that was probed on the real code (505 instead of 506).
+   The step text -> AST (tokenizer, parser, annotations) is covered by the correspondence run:
+   the specification side of the run evaluates the harness's own unannotated tree, the model side the
+   AST dumped from the real parser, and Run/C01Run.v counts on how many dumped ASTs the hypotheses
+   of C01_generated (gen_check, side_ok) hold. *)
+From P2 Require Import Base.Prelude Sem.Num Sem.Syntax Sem.Ops Sem.Lib Sem.Ref Sem.Gen Sem.Sim
+     Sem.SimExamples Sem.Pinned Sem.RelProofs Sem.OpsProofs Sem.LibProofs Sem.GenProofs Sem.PinnedProofs
+     Sem.GenBuggy Sem.GenBuggyProofs Sem.Examples Generated.ValueCfg Run.C01Run.
+
+(* ================= Part 1: the simulation theorems ================= *)
+
+(* T1: for every fuel, program, frame and storage - lock-step simulation (same fuel on both sides,
+   out-of-fuel only related to out-of-fuel), and nothing below the top of the frame is disturbed *)
+Theorem exec_sim : forall known fuel a env am cm st offs size cs,
+  frame_ok am cm st offs size cs env -> wf am cm a ->
+  orel (eval known fuel env a) (fst (exec known fuel am cm st offs size cs a)) /\
+  same_below (offs + size) st (snd (exec known fuel am cm st offs size cs a)).
+Proof. exact exec_sim_lemma. Qed.
+
+(* Generate(ast, argnames...) then Eval(args...), for every program that Generate accepts, every
+   fuel and every pair of related argument tuples (closures may be passed in) *)
+Theorem C01_from_ast : forall known fuel a argnames args1 args2,
+  wf (map Some argnames) [] a ->
+  gen_check (S (ast_size a)) (map Some argnames) [] a = true ->
+  Forall2 vrel args1 args2 -> length args2 = length argnames ->
+  orel (eval known fuel (combine argnames args1) a) (run known fuel a argnames args2).
+Proof. exact C01_from_ast_lemma. Qed.
+
+(* Generate accepts exactly the well-formed programs, up to the two things it does not look at
+   (side_ok: constants first-order; a closure literal's own name is not among its OuterIdents) *)
+Theorem gen_check_implies_wf : forall f a am cm,
+  gen_check f am cm a = true -> side_ok a = true -> wf am cm a.
+Proof. exact gen_check_wf_lemma. Qed.
+
+Theorem C01_generated : forall known fuel a argnames args1 args2,
+  gen_check (S (ast_size a)) (map Some argnames) [] a = true -> side_ok a = true ->
+  Forall2 vrel args1 args2 -> length args2 = length argnames ->
+  orel (eval known fuel (combine argnames args1) a) (run known fuel a argnames args2).
+Proof. exact C01_generated_lemma. Qed.
+
+(* ... in particular for one first-order argument tuple on both sides *)
+Theorem C01_from_ast_fo : forall known fuel a argnames args,
+  wf (map Some argnames) [] a ->
+  gen_check (S (ast_size a)) (map Some argnames) [] a = true ->
+  forallb fo args = true -> length args = length argnames ->
+  orel (eval known fuel (combine argnames args) a) (run known fuel a argnames args).
+Proof. exact C01_from_ast_fo_lemma. Qed.
+
+(* a first-order reference result (numbers, strings, bools, lists and maps of such) is reproduced
+   exactly, not just up to the closure relation *)
+Theorem C01_first_order_result_exact : forall (r1 r2 : res value) v,
+  orel r1 r2 -> r1 = Ok v -> fo v = true -> r2 = Ok v.
+Proof. exact orel_fo_eq. Qed.
+
+(* the observation made by the caller of the generated function (panic = error) *)
+Theorem C01_outcome : forall r1 r2, orel r1 r2 -> out_rel (outcome_of r1) (outcome_of r2).
+Proof. exact orel_outcome. Qed.
+
+(* applying a closure: on the shared storage at any base with anything above and below the frame,
+   or on a fresh storage (as the model does for callbacks of built-in methods) - both results are
+   related to the same reference result; the caller's storage below the frame top is untouched *)
+Theorem call_frame_independent : forall known fuel ps b c1 c2 s1 s2 vs1 vs2 stk base,
+  vrel (VClo ps b c1 s1) (VClo ps b c2 s2) ->
+  Forall2 vrel vs1 vs2 -> length vs2 = length ps ->
+  base + length ps <= length stk -> pushedv stk base vs2 ->
+  let r := r_app (eval known fuel) (VClo ps b c1 s1) vs1 in
+  orel r (fst (g_call (exec known fuel) (VClo ps b c2 s2) (length ps) stk base)) /\
+  orel r (g_app (exec known fuel) (VClo ps b c2 s2) vs2) /\
+  same_below (base + length ps) stk
+             (snd (g_call (exec known fuel) (VClo ps b c2 s2) (length ps) stk base)).
+Proof. exact call_frame_independent_lemma. Qed.
+
+(* the theorem discriminates: the call-site discipline of the pinned commit (Sem/Pinned.v: the same
+   step function with the reserved slots removed from the compilation of call arguments - finding F1,
+   repaired in the repo by "fix: locals created inside call arguments no longer overwrite pending
+   arguments") violates the statement of exec_sim on (\(a,b). b)(x, let y = x+1 in y), x = 5:
+   reference 6, repaired model 6, pinned discipline 5 *)
+Theorem exec_sim_pinned_refuted :
+  exists a env am cm st offs size cs,
+    frame_ok am cm st offs size cs env /\ wf am cm a /\
+    eval [] 10 env a = Ok (VInt 6) /\
+    fst (exec [] 10 am cm st offs size cs a) = Ok (VInt 6) /\
+    fst (exec_pinned [] 10 am cm st offs size cs a) = Ok (VInt 5) /\
+    ~ orel (eval [] 10 env a) (fst (exec_pinned [] 10 am cm st offs size cs a)).
+Proof. exact exec_sim_pinned_refuted_lemma. Qed.
+
+(* operators and built-ins are shared by both semantics and never look inside a closure *)
+Theorem calc_respects_vrel : forall op a a' b b',
+  vrel a a' -> vrel b b' -> orel (calc op a b) (calc op a' b').
+Proof. exact calc_rel. Qed.
+
+Theorem run_static_respects_vrel : forall f args args',
+  Forall2 vrel args args' -> orel (run_static f args) (run_static f args').
+Proof. exact run_static_rel. Qed.
+
+Theorem run_method_respects_vrel : forall app1 app2,
+  (forall c c' vs vs', vrel c c' -> Forall2 vrel vs vs' -> orel (app1 c vs) (app2 c' vs')) ->
+  forall rv rv' mname args args',
+  vrel rv rv' -> Forall2 vrel args args' ->
+  orel (run_method app1 rv mname args) (run_method app2 rv' mname args').
+Proof. exact run_method_rel. Qed.
+
+(* the side condition can be decided: wfb is a sound boolean check of wf *)
+Theorem wfb_implies_wf : forall a am cm, wfb am cm a = true -> wf am cm a.
+Proof. exact wfb_sound. Qed.
+
+(* non-vacuity: a recursive func, a three-level closure capturing the argument, a let inside the
+   second argument of a call, a let inside the argument of a map-field closure call
+     func fac(n) if n<2 then 1 else n*fac(n-1);
+     let h = a->b->c->a+b+c+x; let g = (a,b)->b; let m = {f: p->p+x};
+     fac(x) + h(1)(2)(3) + g(x, let y=x+1; y) + m.f(let y=10; y)          with x = 5 *)
+Example C01_core_nonvacuous :
+  wf (map Some [ex_nx]) [] ex_prog /\
+  gen_check (S (ast_size ex_prog)) (map Some [ex_nx]) [] ex_prog = true /\
+  side_ok ex_prog = true /\
+  eval [] 60 (combine [ex_nx] [VInt 5]) ex_prog = Ok (VInt 152) /\
+  run [] 60 ex_prog [ex_nx] [VInt 5] = Ok (VInt 152).
+Proof.
+  split; [apply wfb_sound; vm_compute; reflexivity|].
+  split; [vm_compute; reflexivity|]. split; [vm_compute; reflexivity|]. split; vm_compute; reflexivity.
+Qed.
+
+(* the side condition on a closure's own name is needed: Generate accepts this annotated tree (own
+   name f listed as an outer identifier, Recursive not set - a shape the parser never produces),
+   the reference binds f to the closure itself, the generated code to the captured argument *)
+Example side_condition_this_needed :
+  gen_check (S (ast_size bad_this)) (map Some [ex_nf]) [] bad_this = true /\
+  side_ok bad_this = false /\
+  run [] 20 bad_this [ex_nf] [VInt 7] = Ok (VInt 7) /\
+  eval [] 20 (combine [ex_nf] [VInt 7]) bad_this <> Ok (VInt 7).
+Proof. repeat split; try (vm_compute; reflexivity). vm_compute. discriminate. Qed.
+
+(* the hypothesis "Generate accepts the program" of C01_from_ast cannot be dropped: wf alone does not
+   exclude Generate-time errors in code that is never evaluated (here: sqr() with no argument in the
+   untaken branch - the reference, which has no compile step, answers 1) *)
+Example C01_from_ast_needs_gen_check :
+  wf (map Some []) [] arity_in_dead_branch /\
+  gen_check (S (ast_size arity_in_dead_branch)) (map Some []) [] arity_in_dead_branch = false /\
+  eval [] 20 (combine [] []) arity_in_dead_branch = Ok (VInt 1) /\
+  run [] 20 arity_in_dead_branch [] [] = Err None.
+Proof. split; [cbn; auto|]. repeat split; vm_compute; reflexivity. Qed.
+
+
+(* ================= Part 2: tables, the probed witness, examples on dumped ASTs ================= *)
 
 (* the decidable obligation on the regenerated tables: every static function / method the models
    implement exists in value.New() with the modelled number of arguments *)
@@ -66,6 +205,19 @@ Example C01_ex_recursion_needs_annotation :
   Gen.run value_methods 50 ex_fac_T [x_] [VInt 5] = Err None.
 Proof. vm_compute. reflexivity. Qed.
 
+Print Assumptions exec_sim.
+Print Assumptions C01_from_ast.
+Print Assumptions gen_check_implies_wf.
+Print Assumptions C01_generated.
+Print Assumptions C01_from_ast_fo.
+Print Assumptions C01_first_order_result_exact.
+Print Assumptions C01_outcome.
+Print Assumptions call_frame_independent.
+Print Assumptions exec_sim_pinned_refuted.
+Print Assumptions calc_respects_vrel.
+Print Assumptions run_static_respects_vrel.
+Print Assumptions run_method_respects_vrel.
+Print Assumptions wfb_implies_wf.
 Print Assumptions C01_tables_ok.
 Print Assumptions C01_pinned_discipline_refuted.
 Print Assumptions C01_repaired_discipline_on_witness.
